@@ -170,8 +170,14 @@ func classify(site, detail string, conf run.Config) string {
 	// a record within the input limits that the accepted transformations / rewriters have grown beyond the fixed
 	// serializer buffer (judged by the harness' own measure of the record at the moment it was handed to the serializer)
 	if strings.HasPrefix(site, "fluentdforward.") || strings.HasPrefix(site, "fastmsgpack.") || strings.HasPrefix(site, "rewrite") {
-		if serializing && (strings.Contains(detail, "out of range") || strings.Contains(detail, "slice bounds")) && lastRecordBytes > defs.InputLogMaxRecordBytes {
-			return "serializer-buffer-overflow:record-grown-by-configuration"
+		if serializing && (strings.Contains(detail, "out of range") || strings.Contains(detail, "slice bounds")) {
+			if lastRecordBytes > defs.InputLogMaxRecordBytes {
+				return "serializer-buffer-overflow:record-grown-by-configuration"
+			}
+			// the record itself is within the limits: the field NAMES written with every record do not fit
+			if n := len(strings.Join(conf.Schema.Fields, "")); n > 4096 {
+				return "serializer-buffer-overflow:field-names"
+			}
 		}
 	}
 	// Prometheus label names are [a-zA-Z_][a-zA-Z0-9_]* (Prometheus data model); the agent derives them from field names
@@ -278,7 +284,7 @@ func evaluate(text string, nilHolder string, opt evalOptions) (outcome, key, msg
 	if opt.orchestrate {
 		root := filepath.Join(dir, fmt.Sprintf("buf%d", caseSerial))
 		site, detail = catch(func() {
-			key, msg = instantiateOrchestrated(conf, schema, root, opt.listen, false)
+			key, msg = instantiateOrchestrated(conf, schema, root, opt.listen, false, smallMenu())
 		})
 		os.RemoveAll(root)
 		if site != "" {
@@ -295,7 +301,7 @@ func evaluate(text string, nilHolder string, opt evalOptions) (outcome, key, msg
 		root := filepath.Join(dir, fmt.Sprintf("real%d", caseSerial))
 		for round := 0; round < 2 && site == "" && key == ""; round++ {
 			site, detail = catch(func() {
-				key, msg = instantiateOrchestrated(conf, schema, root, false, true)
+				key, msg = instantiateOrchestrated(conf, schema, root, false, true, smallMenu())
 			})
 		}
 		os.RemoveAll(root)
@@ -324,6 +330,9 @@ func load(path string, nilHolder string) (conf run.Config, schema base.LogSchema
 		return conf, schema, outViolated, key, "run.ParseConfigFile did not return, it panicked\n" + res.detail
 	}
 	if res.err != nil {
+		if os.Getenv("C16_TRACE") != "" {
+			fmt.Fprintf(os.Stderr, "trace rejected: %v\n", res.err)
+		}
 		return conf, schema, outRejected, "", ""
 	}
 	if n := res.schema.GetMaxFields(); n > maxInstantiableFields {
@@ -385,8 +394,10 @@ func smallMenu() []string {
 
 // the harness' own measure of the record that is being serialized (used only to name a violation class)
 var (
-	serializing     bool
-	lastRecordBytes int
+	serializing           bool
+	lastRecordBytes       int
+	grownRecordSerialized bool // a record larger than defs.InputLogMaxRecordBytes was handed to a serializer in this phase A
+	grownRecordBytes      int
 )
 
 func fieldBytes(record *base.LogRecord) int {
@@ -402,6 +413,7 @@ func fieldBytes(record *base.LogRecord) int {
 func instantiateInline(conf run.Config, schema base.LogSchema, twoTags bool, bigMenu bool) (key, msg string) {
 	mf := promreg.NewMetricFactory("c16a_", nil, nil)
 	nOutputs := len(conf.OutputBuffersPairs)
+	grownRecordSerialized = false
 	// reference counting exactly as run.Loader / LogProcessingWorker.onInput do it: one reference per output, one
 	// Release on DROP, one Release after each output
 	allocator := base.NewLogAllocator(schema, nOutputs)
@@ -477,6 +489,9 @@ func instantiateInline(conf run.Config, schema base.LogSchema, twoTags bool, big
 		for i := len(outputs) - 1; i >= 0; i-- { // the outputs of the first tag last: they release the record
 			out := outputs[i]
 			lastRecordBytes, serializing = fieldBytes(record), true
+			if lastRecordBytes > defs.InputLogMaxRecordBytes && !grownRecordSerialized {
+				grownRecordSerialized, grownRecordBytes = true, lastRecordBytes
+			}
 			stream := out.serializer.SerializeRecord(record)
 			serializing = false
 			if i < nOutputs {
@@ -516,6 +531,12 @@ func instantiateInline(conf run.Config, schema base.LogSchema, twoTags bool, big
 	for _, out := range outputs {
 		if chunk := out.chunkMaker.FlushBuffer(); chunk != nil {
 			if _, err := out.decoder.DecodeChunkToJSON(*chunk, []byte(",\n"), false, discard{}); err != nil {
+				if grownRecordSerialized {
+					// the same cause as accepted-panic:serializer-buffer-overflow:*: the value that does not fit is cut silently
+					// when it is the last one written; the record is lost and leaves an empty entry in the chunk
+					return "accepted-error:chunk-undecodable:record-grown-by-configuration", fmt.Sprintf("a record within the input limits was grown by the accepted transformations beyond the serializer buffer (%d bytes of field values, buffer %d); "+
+						"the chunk that contains it cannot be decoded: %v", grownRecordBytes, 2*defs.InputLogMaxRecordBytes, err)
+				}
 				return "accepted-error:chunk-undecodable", fmt.Sprintf("the chunk built from the record menu cannot be decoded: %v", err)
 			}
 		}
@@ -578,7 +599,7 @@ func relocate(conf run.Config, root string, upstreams bool) (restore func()) {
 // real=false: a consumer override acknowledges every chunk (no network), everything is sent at the end.
 // real=true: no override - obase.PrepareSequentialPipeline constructs and starts the configured forwarders on the
 // pipeline's metric creator; the upstream is unreachable, so the chunks are persisted at shutdown and stay in root.
-func instantiateOrchestrated(conf run.Config, schema base.LogSchema, root string, listen bool, real bool) (key, msg string) {
+func instantiateOrchestrated(conf run.Config, schema base.LogSchema, root string, listen bool, real bool, menu []string) (key, msg string) {
 	defer relocate(conf, root, real)()
 	t0 := time.Now()
 	trace := func(what string) {
@@ -612,7 +633,7 @@ func instantiateOrchestrated(conf run.Config, schema base.LogSchema, root string
 			continue // reported by phase A
 		}
 		batch := make([]*base.LogRecord, 0, len(recordMenu))
-		for _, line := range smallMenu() {
+		for _, line := range menu {
 			if rec := p.Parse([]byte(line), now); rec != nil {
 				batch = append(batch, rec)
 			}
@@ -674,8 +695,14 @@ func launchInputs(conf run.Config, schema base.LogSchema, allocator *base.LogAll
 		stopped = append(stopped, input.Stopped())
 	}
 	stop.Signal()
-	if !channels.AllAwaitables(stopped...).Wait(20 * time.Second) {
-		key, msg = "accepted-error:input-stop-timeout", "inputs did not stop"
+	// patience in ticks of the process's own clock, not in wall time (the machine may be heavily loaded)
+	startTicker()
+	all, since := channels.AllAwaitables(stopped...), ticks.Load()
+	for !all.Wait(25 * time.Millisecond) {
+		if ticks.Load()-since > 4*patienceTicks {
+			key, msg = "accepted-error:input-stop-timeout", fmt.Sprintf("inputs did not stop within %d ticks of the process's own 5 ms clock", 4*patienceTicks)
+			break
+		}
 	}
 	return key, msg
 }
